@@ -297,6 +297,9 @@ def probe_k14(ctx):
         (D.Doc([D.Field(u(b"a"), "=", D.Arr([u(b"1")], [D.Field(u(b"b"), "=", D.Arr([u(b"x")])), D.Field(u(b"c"), "=", D.Obj([D.Field(u(b"d"), "<", u(b"e")), D.Field(u(b"f"), "!=", u(b"g"))])),
                                                          D.Field(u(b"h"), ">=", D.Arr([u(b"2"), D.Arr([u(b"3")])], [D.Field(u(b"i"), "=", D.Obj([D.Field(u(b"j"), "=", u(b"k"))])), D.Field(u(b"l"), "==", u(b"m"))]))]))]), 0),
     ]
+    # the dirty stretch ends at the FIRST closing brace whatever it closes: an empty container, an object
+    docs.append((D.Doc([D.Field(u(b"a"), "=", D.Arr([u(b"1")], [D.Field(u(b"b"), "=", D.Obj([D.Field(u(b"x"), "=", D.Arr([])), D.Field(u(b"c"), "<", u(b"d"))]))]))]), 0))
+    docs.append((D.Doc([D.Field(u(b"a"), "=", D.Arr([u(b"1")], [D.Field(u(b"b"), "=", D.Obj([D.Field(u(b"x"), "=", D.Obj([D.Field(u(b"p"), "=", u(b"q"))])), D.Field(u(b"c"), "<", u(b"d"))]))]))]), 0))
     # the parser re-inserts the marker after an empty / array-first container value: the flag is on again (k14p = 2, k14 = 0)
     docs.append((D.Doc([D.Field(u(b"a"), "=", D.Arr([u(b"1")], [D.Field(u(b"b"), "=", D.Arr([])), D.Field(u(b"e"), "=", D.Obj([D.Field(u(b"f"), "<", u(b"g"))]))]))]), 2))
     docs.append((D.Doc([D.Field(u(b"a"), "=", D.Arr([u(b"1")], [D.Field(u(b"b"), "=", D.Arr([D.Arr([u(b"2")])])), D.Field(u(b"e"), "=", D.Obj([D.Field(u(b"f"), "<", u(b"g"))]))]))]), 2))
